@@ -9,35 +9,35 @@ open Utv.JsonSchema
 
 theorem kw_numeric (prim : String) (hp : prim = "integer" ∨ prim = "number") (n : String)
     (hn : numericCons.contains n = true) (v : Json) (hv : conValueOk (n, v) = true) :
-    wfEntry (keywordOf prim n) v = true := by
+    wfEntry (keywordOf prim n) (kwValue (keywordOf prim n) v) = true := by
   simp [numericCons] at hn
   rcases hp with rfl | rfl <;> rcases hn with rfl | rfl | rfl | rfl | rfl | rfl | rfl | rfl | rfl <;>
     simp [keywordOf, constraintsMapFor, TYPE_CONSTRAINTS_MAP, assoc, wfEntry, wfSimple, schemaKeywords,
-      schemaArrayKeywords, schemaMapKeywords, conValueOk, isNum] at hv ⊢ <;>
+      schemaArrayKeywords, schemaMapKeywords, conValueOk, isNum, kwValue] at hv ⊢ <;>
     (cases v <;> simp_all)
 
 theorem kw_string (n : String) (hn : stringCons.contains n = true) (v : Json) (hv : conValueOk (n, v) = true) :
-    wfEntry (keywordOf "string" n) v = true := by
+    wfEntry (keywordOf "string" n) (kwValue (keywordOf "string" n) v) = true := by
   simp [stringCons] at hn
   rcases hn with rfl | rfl | rfl | rfl | rfl | rfl <;>
     simp [keywordOf, constraintsMapFor, TYPE_CONSTRAINTS_MAP, assoc, wfEntry, wfSimple, schemaKeywords,
-      schemaArrayKeywords, schemaMapKeywords, conValueOk, isNum] at hv ⊢ <;>
+      schemaArrayKeywords, schemaMapKeywords, conValueOk, isNum, kwValue] at hv ⊢ <;>
     (cases v <;> simp_all [strOf])
 
 theorem kw_array (n : String) (hn : arrayCons.contains n = true) (v : Json) (hv : conValueOk (n, v) = true) :
-    wfEntry (keywordOf "array" n) v = true := by
+    wfEntry (keywordOf "array" n) (kwValue (keywordOf "array" n) v) = true := by
   simp [arrayCons] at hn
   rcases hn with rfl | rfl | rfl | rfl <;>
     simp [keywordOf, constraintsMapFor, TYPE_CONSTRAINTS_MAP, assoc, wfEntry, wfSimple, schemaKeywords,
-      schemaArrayKeywords, schemaMapKeywords, conValueOk, isNum] at hv ⊢ <;>
+      schemaArrayKeywords, schemaMapKeywords, conValueOk, isNum, kwValue] at hv ⊢ <;>
     (cases v <;> simp_all)
 
 theorem kw_object (n : String) (hn : objectCons.contains n = true) (v : Json) (hv : conValueOk (n, v) = true) :
-    wfEntry (keywordOf "object" n) v = true := by
+    wfEntry (keywordOf "object" n) (kwValue (keywordOf "object" n) v) = true := by
   simp [objectCons] at hn
   rcases hn with rfl | rfl | rfl <;>
     simp [keywordOf, constraintsMapFor, TYPE_CONSTRAINTS_MAP, assoc, wfEntry, wfSimple, schemaKeywords,
-      schemaArrayKeywords, schemaMapKeywords, conValueOk, isNum] at hv ⊢ <;>
+      schemaArrayKeywords, schemaMapKeywords, conValueOk, isNum, kwValue] at hv ⊢ <;>
     (cases v <;> simp_all)
 
 theorem mem_orderedCons {cs : Cons} {c : String × Json} (h : c ∈ orderedCons cs) : c ∈ cs := by
@@ -47,7 +47,8 @@ theorem mem_orderedCons {cs : Cons} {c : String × Json} (h : c ∈ orderedCons 
   exact (List.mem_filter.mp hc).1
 
 theorem wf_consSchema (prim : String) (allowed : List String) (cs : Cons) (h : consOk allowed cs = true)
-    (hk : ∀ n, allowed.contains n = true → ∀ v, conValueOk (n, v) = true → wfEntry (keywordOf prim n) v = true) :
+    (hk : ∀ n, allowed.contains n = true → ∀ v, conValueOk (n, v) = true →
+      wfEntry (keywordOf prim n) (kwValue (keywordOf prim n) v) = true) :
     wfKws (consSchema prim cs) = true := by
   rw [wfKws_eq_all, List.all_eq_true]
   intro e he
@@ -254,6 +255,11 @@ theorem wf_reqSeg (cfg : Cfg) (o : Opts) (ms : List FieldMeta) (h : strDistinct 
     rw [this]
     exact uniqueStrArray_strArr _ (strDistinct_filter_map _ _ ms h)
 
+theorem strDistinct_filter (p : String → Bool) (l : List String) (h : strDistinct l = true) :
+    strDistinct (l.filter p) = true := by
+  rw [strDistinct_iff_nodup] at *
+  exact List.Nodup.sublist List.filter_sublist h
+
 theorem wf_depSeg (cfg : Cfg) (o : Opts) (ms : List FieldMeta) (h : ∀ f ∈ ms, strDistinct f.deps = true) :
     wfKws (depSeg cfg o ms) = true := by
   unfold depSeg
@@ -266,9 +272,14 @@ theorem wf_depSeg (cfg : Cfg) (o : Opts) (ms : List FieldMeta) (h : ∀ f ∈ ms
     rw [this, List.all_eq_true]
     intro d hd
     unfold dependentRequired at hd
-    rw [List.mem_map] at hd
-    obtain ⟨f, hf, rfl⟩ := hd
-    exact uniqueStrArray_strArr _ (strDistinct_sort _ (h f (List.mem_filter.mp hf).1))
+    by_cases hout : cfg.output = true
+    · simp [hout] at hd
+    · simp only [hout, Bool.false_eq_true, if_false] at hd
+      rw [List.mem_map] at hd
+      obtain ⟨d', hd', rfl⟩ := hd
+      rw [List.mem_filter, List.mem_map] at hd'
+      obtain ⟨⟨f, hf, rfl⟩, _⟩ := hd'
+      exact uniqueStrArray_strArr _ (strDistinct_filter _ _ (strDistinct_sort _ (h f (List.mem_filter.mp hf).1)))
 
 theorem wf_classAnnotations (o : Opts) : wfKws (classAnnotations o) = true := by
   unfold classAnnotations
@@ -279,16 +290,81 @@ theorem wf_addSeg (o : Opts) (s : Obj) (h : wfKws s = true) : wfKws (addSeg o s)
   cases o.addition <;> simp [wfKws_nil, wfKws_cons, wfEntry, wfSimple, schemaKeywords, schemaArrayKeywords,
     schemaMapKeywords, wf_obj, h, wf]
 
+theorem mem_dedupStrs {x : String} {l : List String} : x ∈ dedupStrs l ↔ x ∈ l := by
+  induction l with
+  | nil => simp [dedupStrs]
+  | cons y rest ih =>
+    simp only [dedupStrs, List.mem_cons, List.mem_filter, ih]
+    constructor
+    · rintro (h | ⟨h, _⟩)
+      · exact Or.inl h
+      · exact Or.inr h
+    · intro h
+      by_cases hxy : x = y
+      · exact Or.inl hxy
+      · rcases h with h | h
+        · exact Or.inl h
+        · exact Or.inr ⟨h, by simpa using hxy⟩
+
+theorem dedupStrs_nodup (l : List String) : (dedupStrs l).Nodup := by
+  induction l with
+  | nil => simp [dedupStrs]
+  | cons y rest ih =>
+    simp only [dedupStrs, List.nodup_cons, List.mem_filter]
+    refine ⟨fun h => by simp at h, List.Nodup.sublist List.filter_sublist ih⟩
+
+theorem mem_dedupPrims {x : Prim} {l : List Prim} : x ∈ dedupPrims l ↔ x ∈ l := by
+  induction l with
+  | nil => simp [dedupPrims]
+  | cons y rest ih =>
+    simp only [dedupPrims, List.mem_cons, List.mem_filter, ih]
+    constructor
+    · rintro (h | ⟨h, _⟩)
+      · exact Or.inl h
+      · exact Or.inr h
+    · intro h
+      by_cases hxy : x = y
+      · exact Or.inl hxy
+      · rcases h with h | h
+        · exact Or.inl h
+        · exact Or.inr ⟨h, by simpa using hxy⟩
+
+theorem wfType_names (ts : List String) (hn : ∀ t ∈ ts, primitiveNames.contains t = true) (hd : ts.Nodup) :
+    wfType (.arr (ts.map Json.str)) = true := by
+  simp only [wfType, Bool.and_eq_true, List.all_eq_true]
+  refine ⟨?_, by rw [allDistinct_strs]; exact (strDistinct_iff_nodup ts).mpr hd⟩
+  intro j hj
+  rw [List.mem_map] at hj
+  obtain ⟨t, ht, rfl⟩ := hj
+  exact hn t ht
+
+theorem wfType_dedup (ps : List Prim) : wfType (namesType (dedupStrs (ps.map getPrimitive))) = true := by
+  have hmem : ∀ t ∈ dedupStrs (ps.map getPrimitive), primitiveNames.contains t = true := by
+    intro t ht
+    rw [mem_dedupStrs, List.mem_map] at ht
+    obtain ⟨p, _, rfl⟩ := ht
+    exact getPrimitive_name p
+  have hnd := dedupStrs_nodup (ps.map getPrimitive)
+  generalize dedupStrs (ps.map getPrimitive) = ts at hmem hnd
+  unfold namesType
+  match ts with
+  | [] => exact wfType_names [] hmem hnd
+  | [t] => simp only [wfType]; exact hmem t (List.mem_cons_self ..)
+  | t :: u :: rest => exact wfType_names _ hmem hnd
+
+theorem wfType_enumType (e : EnumDecl) : wfType (enumType e) = true := by
+  unfold enumType
+  generalize enumPyTypes e = ps
+  match ps with
+  | [] => decide
+  | [p] => simp only [wfType]; exact getPrimitive_name p
+  | p :: q :: rest => exact wfType_dedup _
+
 theorem wf_enumSchema (e : EnumDecl) : wfKws (enumSchema e) = true := by
   unfold enumSchema
   rw [wfKws_append, wf_optStr_format, Bool.and_true, wfKws_cons, wfKws_cons, wfKws_cons, wfKws_nil]
-  cases enumPrim e with
-  | none =>
-    simp [wfEntry, wfSimple, wfType, schemaKeywords, schemaArrayKeywords, schemaMapKeywords, DEFAULT_PRIMITIVE, primitiveNames]
-  | some p =>
-    have := wfEntry_type _ (getPrimitive_name p)
-    simp [wfEntry, wfSimple, schemaKeywords, schemaArrayKeywords, schemaMapKeywords] at this ⊢
-    exact this
+  have := wfType_enumType e
+  simp [wfEntry, wfSimple, schemaKeywords, schemaArrayKeywords, schemaMapKeywords, this]
 
 theorem fieldNames_eq (fs : List Fld) : fieldNames fs = (fs.map Fld.meta).map (·.name) := by
   unfold fieldNames; simp [List.map_map, Function.comp_def]
